@@ -72,6 +72,7 @@ def run(ctx):
     ptypes, consts, borrowed, _r = own.RETURNS_NEW[name]
     own.check_borrowed(ctx, SL + ':' + name, ptypes, consts, borrowed)
   fi = ctx.func(SL + ':_extract_subsequences')
+  unit_advance(ctx, fi)
   rebuild(ctx, fi)
   loops = locate_loops(ctx, fi)
   boundaries(ctx, fi, loops)
@@ -84,6 +85,40 @@ def run(ctx):
   split_time_changes(ctx)
   split_silence(ctx)
   wrappers(ctx)
+
+
+def unit_advance(ctx, fi):
+  """Location-independent: the event traversals of _extract_subsequences walk a piece index forward and, for every piece they
+  enter, write the carried state (pedals, tempo, key, ...) at its beginning.  The index must therefore advance one piece at a
+  time (`idx += 1`, `idx = idx + 1`) inside the catch-up loop; an index that is *assigned* the piece an event falls into
+  (bisect, arithmetic) jumps over the pieces in between, which then start without the state in force."""
+  fn = fi.node
+  for lp in ast.walk(fn):
+    if not (isinstance(lp, ast.For) and isinstance(lp.iter, ast.Call) and dotted(lp.iter.func) == 'sorted'):
+      continue
+    # only traversals that carry state from one event to the pieces after it: the loop variable is remembered beyond the iteration
+    # (previous_pedal_events[key] = pedal_event, state = event).  The note traversal carries nothing: its index may jump.
+    var = lp.target.id if isinstance(lp.target, ast.Name) else None
+    carries = var is not None and any(isinstance(s, ast.Assign) and isinstance(s.value, ast.Name) and s.value.id == var and
+                                      isinstance(s.targets[0], (ast.Name, ast.Subscript)) for s in U.walk_stmts(lp))
+    if not carries:
+      continue
+    idx = set(norm_text(x.slice) for x in ast.walk(lp) if isinstance(x, ast.Subscript) and norm_text(x.value) == 'subsequences' and isinstance(x.slice, ast.Name))
+    for s in U.walk_stmts(lp):
+      if not (isinstance(s, ast.Assign) and len(s.targets) == 1 and isinstance(s.targets[0], ast.Name) and s.targets[0].id in idx):
+        continue
+      name = s.targets[0].id
+      try:
+        d = (nf.rat(U.expand_locals(fn, s.value, at=s)) - nf.rat(E(name))).const_value()
+      except (nf.NFError, AttributeError):
+        d = None
+      if d == 1:
+        continue
+      ranged = any(isinstance(r, ast.For) and isinstance(r.iter, ast.Call) and dotted(r.iter.func) == 'range' and
+                   any(isinstance(x, ast.Subscript) and norm_text(x.value) == 'subsequences' for x in ast.walk(r)) for r in ast.walk(lp) if r is not lp)
+      ctx.ob('STATE/unit-advance', fi, s, ranged, 'the pieces in between are visited by a range loop' if ranged else
+             '%s moves the piece index to where the event falls without visiting the pieces in between: they receive no carried state at their beginning '
+             '(a pedal held across several pieces is only written into the piece of the next pedal event)' % norm_text(s), construct='piece index advances one piece at a time', definite=True)
 
 
 # ------------------------------------------------------------------ S2
@@ -561,8 +596,32 @@ def split_time_changes(ctx):
          'time signatures and tempos are not examined together in time order', construct='sorted(time_signatures + tempos, key=time)')
 
 
+def silence_reference(ctx, fi):
+  """Location-independent: silence is the time during which *no* note sounds, so the onset is compared with the latest end of all
+  earlier notes (a running maximum).  A gap test that reads the end_time of one particular note (the previous one in start order)
+  forgets a long note that started earlier and is still sounding: a split lands inside it."""
+  fn = fi.node
+  loopvars = set()
+  for n in ast.walk(fn):
+    if isinstance(n, (ast.For, ast.comprehension)):
+      loopvars.update(x.id for x in ast.walk(n.target) if isinstance(x, ast.Name))
+  for c in ast.walk(fn):
+    if not isinstance(c, ast.Compare):
+      continue
+    ex = U.expand_locals(fn, c, at=c)
+    if 'gap_seconds' not in U.names_in(ex):
+      continue
+    inside_max = set(id(x) for m in ast.walk(ex) if isinstance(m, ast.Call) and dotted(m.func) == 'max' for x in ast.walk(m))
+    single = [x for x in ast.walk(ex) if isinstance(x, ast.Attribute) and x.attr == 'end_time' and isinstance(x.value, ast.Name) and x.value.id in loopvars and id(x) not in inside_max]
+    ok = not single
+    ctx.ob('SPLIT/silence/against-latest-end', fi, c, ok, 'the gap test reads no single note\'s end' if ok else
+           'the gap test %s measures the silence from %s, the end of one note: an earlier note that is still sounding is ignored and the sequence is split inside it' % (
+               norm_text(c), norm_text(single[0])), construct='silence is measured from the latest end so far', definite=True)
+
+
 def split_silence(ctx):
   fi = ctx.func(SL + ':split_note_sequence_on_silence')
+  silence_reference(ctx, fi)
   fi = Canon(fi, roles.discover(fi, {
       'notes_by_start_time': SPLITTER_ROLES['notes_by_start_time'],
       'split_times': SPLITTER_ROLES['valid_split_times'],
